@@ -337,3 +337,111 @@ Theorem C10_substitute_pure_ports_needed :
   CInv cx_impl /\ IoLive cx_impl /\ subst_shape_b cx_impl = true /\ ~ pure_ports cx_impl /\
   exists c4 dl m, substitute_pre cx_host 0 cx_impl = Some (c4, dl, m) /\ ~ SubstGlue cx_host 0 cx_impl m c4.
 Proof. exact pure_ports_needed. Qed.
+
+(** * 7. resolve_tlib_cells as ONE theorem over its loop (Model/CircuitResolveSem.v, Proofs/CircuitResolveDang.v / CircuitResolveGlue.v /
+    CircuitResolveSem.v).
+    Vocabulary: [inst_ok sem zero c n impl m stim v] = the second half of [inst_sol] -- the lines at the output pins of node [n] carry the
+    outputs of some solution of [impl] whose input port number k is fed with the line at input pin k of [n] (unconnected: zero) and
+    whose state elements are fed with the stimulus of their copies ([m]: implementation node -> id of its copy).
+    [rsol sem zero lib M c stim v]: [v] solves [c] with EVERY node whose kind is a key of the library table [lib] read through its
+    implementation ([inst_ok] with the node map [M n]) and every other node through its own gate equation; without library kinds
+    [rsol] is [csol] (C10_rsol_no_lib).  [Keep lib c c' n]: [n] is a node of both circuits and no library instance of [c].
+    Hypotheses, all with boolean checkers that the check evaluates on every compared resolve case:
+    [lib_ok_sem_b lib]: FORK is no key, no implementation contains a node of a library kind, every implementation is consistent
+    (cinv_b, io_ok_b) and has the shapes subst_shape_b / pure_ports_b of section 6;
+    [lib_total sem zero lib] (checker [lib_total_b], sound by the scheduler theorem of C01): every implementation HAS a solution for
+    every stimulus -- needed because the clean-up below an unconnected output may delete a library instance that is never
+    substituted (the case of fix 11c77ac), and "read through its implementation" must be satisfiable for it;
+    [resolve_host_ok_b c lib]: no library instance is a port, and known finding D22 is excluded at every instance ([d22_free_b];
+    refuted companion: C10_substitute_d22_refuted).
+    NOT claimed (known findings, refuted companions above and in C10Lib): which state elements exist afterwards and in which order
+    s_nodes lists them (D21 C10_substitute_d21_refuted, D29 C10_substitute_state_order_refuted, D15 C10_lib_*_all_connected_refuted):
+    the stimulus of the state element [x] inside instance [u] is the stimulus of the node [M u x] of the result, by id. *)
+From KV Require Import Model.CircuitResolveSem.
+From KV Require Proofs.CircuitResolveDang Proofs.CircuitResolveGlue Proofs.CircuitResolveSem.
+Import Proofs.CircuitResolveSem.
+
+(* (a) THE LOOP THEOREM: for every consistent circuit and every successful call, the result is consistent, io_nodes (names and order of
+   the ports) is unchanged, no node of a library kind remains, every node of the result is a node of [c] with its name (and its kind,
+   unless it was a library instance) or a new node; and for ONE assignment [M] of node maps to the instances, the solutions of the
+   result are exactly the valuations of [c] in which every library instance is read through its implementation: each yields the
+   other with the same values at every input pin of every node that both circuits share (the ports in particular: (c)) *)
+Theorem C10_resolve_function : forall V (sem : BinNums.N -> V -> V -> V -> V -> V) (zero : V),
+  (forall x a b d, sem (SimOps.lutv "BUF1") x a b d = x) ->
+  forall lib, lib_ok_sem_b lib = true -> lib_total sem zero lib ->
+  forall c c', CInv c -> IoLive c -> resolve_host_ok_b c lib = true -> resolve_tlib c lib = Some c' ->
+  CInv c' /\ IoLive c' /\ io c' = io c /\
+  (forall n, In n (nodes c') -> tlib_get (kind_of c' n) lib = None) /\
+  (forall n, In n (nodes c') ->
+     (In n (nodes c) /\ name_of c' n = name_of c n /\ (tlib_get (kind_of c n) lib = None -> kind_of c' n = kind_of c n)) \/
+     nnext c <= n) /\
+  exists M,
+    (forall stim v, rsol sem zero lib M c stim v ->
+       exists v', csol sem zero c' stim v' /\ forall n k, Keep lib c c' n -> obs zero c' v' n k = obs zero c v n k) /\
+    (forall stim v', csol sem zero c' stim v' ->
+       exists v, rsol sem zero lib M c stim v /\ forall n k, Keep lib c c' n -> obs zero c' v' n k = obs zero c v n k).
+Proof. exact @resolve_function. Qed.
+(* (b) the same with every hypothesis a boolean (what the check evaluates per case) *)
+Theorem C10_resolve_function_checked : forall V (sem : BinNums.N -> V -> V -> V -> V -> V) (zero : V),
+  (forall x a b d, sem (SimOps.lutv "BUF1") x a b d = x) ->
+  forall lib c c', lib_ok_sem_b lib = true -> lib_total_b lib = true ->
+  cinv_b c = true -> io_ok_b c = true -> resolve_host_ok_b c lib = true -> resolve_tlib c lib = Some c' ->
+  CInv c' /\ IoLive c' /\ io c' = io c /\
+  (forall n, In n (nodes c') -> tlib_get (kind_of c' n) lib = None) /\
+  (forall n, In n (nodes c') ->
+     (In n (nodes c) /\ name_of c' n = name_of c n /\ (tlib_get (kind_of c n) lib = None -> kind_of c' n = kind_of c n)) \/
+     nnext c <= n) /\
+  exists M,
+    (forall stim v, rsol sem zero lib M c stim v ->
+       exists v', csol sem zero c' stim v' /\ forall n k, Keep lib c c' n -> obs zero c' v' n k = obs zero c v n k) /\
+    (forall stim v', csol sem zero c' stim v' ->
+       exists v, rsol sem zero lib M c stim v /\ forall n k, Keep lib c c' n -> obs zero c' v' n k = obs zero c v n k).
+Proof. exact resolve_function_checked. Qed.
+Theorem C10_lib_total_b_sound : forall V (sem : BinNums.N -> V -> V -> V -> V -> V) (zero : V) lib,
+  lib_ok_sem_b lib = true -> lib_total_b lib = true -> lib_total sem zero lib.
+Proof. exact lib_total_b_sound. Qed.
+(* (c) every port is a shared node: both sides observe the same value at every pin of every port *)
+Theorem C10_resolve_ports_kept : forall lib c c', IoLive c -> IoLive c' -> io c' = io c -> resolve_host_ok_b c lib = true ->
+  forall n, In (Some n) (io c) -> Keep lib c c' n.
+Proof. exact resolve_ports_kept. Qed.
+(* (d) without library kinds [rsol] is the gate-by-gate semantics *)
+Theorem C10_rsol_no_lib : forall V (sem : BinNums.N -> V -> V -> V -> V -> V) (zero : V) lib M c stim v,
+  (forall n, In n (nodes c) -> tlib_get (kind_of c n) lib = None) ->
+  (rsol sem zero lib M c stim v <-> csol sem zero c stim v).
+Proof. intros V sem zero lib. exact (rsol_csol sem zero lib). Qed.
+(* (e) ONE ITERATION, any state of the loop: the live instance [u] moves from "read through its implementation" into the netlist, all
+   other library instances stay read through theirs; the clean-up below unconnected outputs is included *)
+Theorem C10_resolve_step : forall V (sem : BinNums.N -> V -> V -> V -> V -> V) (zero : V),
+  (forall x a b d, sem (SimOps.lutv "BUF1") x a b d = x) ->
+  forall lib, lib_ok_sem_b lib = true -> lib_total sem zero lib ->
+  forall c u impl c4 dl m c' M,
+  CInv c -> IoLive c -> In u (nodes c) -> tlib_get (kind_of c u) lib = Some impl ->
+  io_mem c u = false -> d22_free_b c u impl = true ->
+  substitute_pre c u impl = Some (c4, dl, m) -> cleanup dl c4 = Some c' -> M u = m ->
+  CInv c' /\ IoLive c' /\ io c' = io c /\ nnext c <= nnext c' /\ name_of c' u = name_of c u /\
+  (forall n, In n (nodes c') ->
+     (In n (nodes c) /\ n <> u /\ name_of c' n = name_of c n /\ kind_of c' n = kind_of c n /\ ins_of c' n = ins_of c n) \/
+     (tlib_get (kind_of c' n) lib = None /\ (n = u \/ nnext c <= n))) /\
+  (forall stim v, rsol sem zero lib M c stim v ->
+     exists v', rsol sem zero lib M c' stim v' /\
+                forall n k, In n (nodes c) -> n <> u -> In n (nodes c') -> obs zero c' v' n k = obs zero c v n k) /\
+  (forall stim v', rsol sem zero lib M c' stim v' ->
+     exists v, rsol sem zero lib M c stim v /\
+               forall n k, In n (nodes c) -> n <> u -> In n (nodes c') -> obs zero c' v' n k = obs zero c v n k).
+Proof. exact @resolve_step. Qed.
+(* (f) the loop with its trace (visited instance, implementation, node map) -- what the check runs -- is the loop *)
+Theorem C10_resolve_trace_is_loop : forall t c, option_map fst (resolve_trace t (nodes c) c) = resolve_tlib c t.
+Proof. intros t c. exact (resolve_trace_fold t (nodes c) c). Qed.
+(* (g) node ids are never reused by substitute (so "a node of both circuits" is a node of every intermediate state) *)
+Theorem C10_substitute_ids_fresh : forall c u impl c', substitute c u impl = Some c' -> nnext c <= nnext c'.
+Proof. exact substitute_nn. Qed.
+(* (h) the hypotheses are satisfiable with TWO different library cells in one host, one of them with an unconnected output: u2 (a
+   buffer cell) drives input A of u1 (Y = AND2(A,B), Z = INV1(Y)) whose output Z is open; both are visited, the inverter is cleaned up *)
+Theorem C10_resolve_example :
+  cinv_b rex_host = true /\ io_ok_b rex_host = true /\ lib_ok_sem_b rex_lib = true /\ lib_total_b rex_lib = true /\
+  resolve_host_ok_b rex_host rex_lib = true /\
+  all_outs_connected_b rex_host 0 Proofs.CircuitResolve.impl_two = false /\
+  option_map (fun c' => (map (fun n => (name_of c' n, kind_of c' n)) (nodes c'), List.length (lines c'), io c')) rex_result
+  = Some ([("u1", "AND2"); ("u2", "BUF1"); ("i0", FORK); ("i1", FORK); ("o0", FORK); ("u1~Y", FORK)]%string, 5, io rex_host) /\
+  option_map (fun r => List.length (snd r)) (resolve_trace rex_lib (nodes rex_host) rex_host) = Some 2.
+Proof. exact resolve_example_sem. Qed.
